@@ -12,7 +12,9 @@ G_Five   == << <<1, 4>>, <<1, 2>>, <<1, 1>>, <<3, 2>>, <<3, 1>> >>
 M_Full   == {"full"}
 M_Pat    == {"pattern"}
 P_Few    == { <<1, 0>>, <<2, 1>> }
+P_One    == { <<1, 0>> }
 P_Many   == { <<1, 0>>, <<2, 1>>, <<3, 2>>, <<1, 3>>, <<4, 1>> }
+P_Three  == { <<1, 0>>, <<2, 1>>, <<3, 2>> }
 X_Zero   == { <<0, 1>> }
 X_Few    == { <<0, 1>>, <<1, 4>> }
 X_Signed == { <<0, 1>>, <<1, 4>>, <<-1, 4>>, <<1, 2>> }
